@@ -83,6 +83,9 @@ class InitHook(Monitor):
             COL.count('out_of_scope_custom_infimum')
             return
         common.tie(lat, ctx)
+        if common.DEFER[0]:
+            COL.count('construction_hook_deferred_to_the_driver')
+            return
         sh = attach.shadow_of(ctx)
         COL.count('judged_construction')
         judge_pairs(sh, _pairs_of(list(lat)), STATE['cap'] or self.cap, 'construction')
